@@ -194,7 +194,8 @@ class WireSig:
                 # conditions with temporaries into one value, so the failing operand edges must be cut here
                 t_, pos_ = _strip_not(b.cond, True)
                 if isinstance(t_, dict) and t_.get("k") == "call" and t_.get("ret") == "bool" and \
-                        (prim_token(t_) is not None or strip_targs(t_.get("fn") or "") in R_PRIMS):
+                        (prim_token(t_) is not None or strip_targs(t_.get("fn") or "") in R_PRIMS or
+                         any(self.does_io(x) for x in self.F.targets(t_) if "/draco/" in x.file)):
                     fail_succ = b.succ[1] if pos_ else b.succ[0]
                     if fail_succ is not None and b.succ[0] != b.succ[1]:
                         dead.add((b.id, fail_succ))
